@@ -1670,6 +1670,12 @@ class PPTableFormat:
         assert isinstance(limits, (list, tuple)) and len(limits) == 2, (
             f"invalid limits specified: {limits}. Expected value is None "
             f"or (n_firts, n_last)")
+        if tuple(limits) != (self.limit_flines, self.limit_llines):
+            # other records become visible: it is not known any more if any
+            # lines are skipped, and actual widths of the columns are to be
+            # detected again
+            self.any_lines_skipped = None
+            self.repr_structure.remove_columns([])
         self.limit_flines, self.limit_llines = limits
 
     @staticmethod
